@@ -81,6 +81,7 @@ pub struct Analysis<'a> {
     pub tid_of_thread: Vec<usize>,
     /// expectations by (trace id, node)
     pub by_key: HashMap<(u128, u32), Vec<usize>>,
+    pub memo_inv: std::cell::RefCell<HashMap<usize, (bool, bool, bool)>>,
     pub memo_batch: std::cell::RefCell<HashMap<(u128, u32, PRef), Option<usize>>>,
 }
 
@@ -397,6 +398,7 @@ impl<'a> Analysis<'a> {
             parked_count,
             tid_of_thread,
             by_key: HashMap::new(),
+            memo_inv: std::cell::RefCell::new(HashMap::new()),
             memo_batch: std::cell::RefCell::new(HashMap::new()),
         };
         a.match_records();
@@ -579,6 +581,15 @@ impl<'a> Analysis<'a> {
     /// lock for the whole drain pass, so every ring that holds a command pushed before the pass
     /// ended is visited by it: this shape is NOT the known finding D2.
     pub fn inversion3(&self, c: usize) -> (bool, bool, bool) {
+        if let Some(r) = self.memo_inv.borrow().get(&c) {
+            return *r;
+        }
+        let r = self.inversion3_uncached(c);
+        self.memo_inv.borrow_mut().insert(c, r);
+        r
+    }
+
+    fn inversion3_uncached(&self, c: usize) -> (bool, bool, bool) {
         let id = match self.collect_ids.get(&c) {
             Some(id) => *id,
             None => return (false, false, false),
@@ -586,46 +597,56 @@ impl<'a> Analysis<'a> {
         let (mut cross, mut same) = (false, false);
         let mut unvisited = false;
         let rel: Vec<&CmdFate> = self.cmds.iter().filter(|x| x.collects.contains(&id) && !x.lost).collect();
-        for x in &rel {
-            for y in &rel {
-                if std::ptr::eq(*x, *y) {
-                    continue;
-                }
-                let ordered = match (x.op, y.op) {
-                    (Some(ox), Some(oy)) => {
-                        if ox == oy {
-                            x.log_idx < y.log_idx
-                        } else {
-                            self.hb.before(ox, oy)
-                        }
-                    }
-                    _ => false,
-                };
-                if !ordered {
-                    continue;
-                }
-                // only orders the collector semantics depend on
-                let matters = x.kind == 0 || y.kind == 2 || (x.kind == 1 && y.kind == 3) || (x.kind == 1 && y.kind == 2);
-                if !matters {
-                    continue;
-                }
-                let inv = match (x.cycle, y.cycle) {
-                    (Some(cx), Some(cy)) => cx > cy || (cx == cy && x.tid == y.tid && x.consumed_at > y.consumed_at),
-                    (None, Some(_)) => !x.lost, // x never consumed, y was
-                    _ => false,
-                };
-                if inv {
-                    if x.tid == y.tid {
-                        same = true;
+        let mut check = |x: &CmdFate, y: &CmdFate| {
+            if std::ptr::eq(x, y) {
+                return;
+            }
+            let ordered = match (x.op, y.op) {
+                (Some(ox), Some(oy)) => {
+                    if ox == oy {
+                        x.log_idx < y.log_idx
                     } else {
-                        cross = true;
-                        if let Some(cy) = y.cycle {
-                            if !self.cycles.get(cy).map(|k| k.drain_end.contains_key(&x.tid)).unwrap_or(true) {
-                                unvisited = true;
-                            }
+                        self.hb.before(ox, oy)
+                    }
+                }
+                _ => false,
+            };
+            if !ordered {
+                return;
+            }
+            // only orders the collector semantics depend on
+            let matters = x.kind == 0 || y.kind == 2 || (x.kind == 1 && y.kind == 3) || (x.kind == 1 && y.kind == 2);
+            if !matters {
+                return;
+            }
+            let inv = match (x.cycle, y.cycle) {
+                (Some(cx), Some(cy)) => cx > cy || (cx == cy && x.tid == y.tid && x.consumed_at > y.consumed_at),
+                (None, Some(_)) => !x.lost, // x never consumed, y was
+                _ => false,
+            };
+            if inv {
+                if x.tid == y.tid {
+                    same = true;
+                } else {
+                    cross = true;
+                    if let Some(cy) = y.cycle {
+                        if !self.cycles.get(cy).map(|k| k.drain_end.contains_key(&x.tid)).unwrap_or(true) {
+                            unvisited = true;
                         }
                     }
                 }
+            }
+        };
+        // the pairs that can matter have a start or a cancel on the left or a commit on the right
+        // (a handful of commands each): no need to look at all pairs of a 10 000-command burst
+        for x in rel.iter().filter(|x| x.kind == 0 || x.kind == 1) {
+            for y in &rel {
+                check(x, y);
+            }
+        }
+        for y in rel.iter().filter(|y| y.kind == 2) {
+            for x in &rel {
+                check(x, y);
             }
         }
         (cross, same, unvisited)
